@@ -17,6 +17,7 @@ ACC_MIP = flatcheck.acc_of(flatcheck.base_config('g0'), 0)
 # (name, mode bits, var-bit, con-bit, obj-bit, idealistic?)
 MODES = [('default', None, 1, 1, 1, False), ('real-1+2', 3, 1, 1, 0, False), ('real-1+2+16', 19, 1, 1, 1, False),
          ('real-1', 1, 1, 0, 0, False), ('real-2', 2, 0, 1, 0, False), ('real-16', 16, 0, 0, 1, False),
+         ('real-8', 8, 0, 1, 0, False), ('real-1+8', 9, 1, 1, 0, False), ('ideal-256', 256, 0, 1, 0, True), ('ideal-32+256', 288, 1, 1, 0, True),
          ('ideal-32', 32, 1, 0, 0, True), ('mixed-2+32', 34, 1, 1, 0, False), ('ideal-32+64', 96, 1, 1, 0, True), ('ideal-64', 64, 0, 1, 0, True), ('ideal-512', 512, 0, 0, 1, True),
          ('ideal-32+64+512', 608, 1, 1, 1, True), ('all-1023', 1023, 1, 1, 1, False), ('none-0', 0, 0, 0, 0, False)]
 
@@ -126,10 +127,11 @@ def work(job):
                         exp_viol = (vb and not bounds_ok) or (cb and not cons_ok) or (ob and objmode == 'off' and m.objs)
                         exp_viol = bool(exp_viol)
                         # modes for which the full iff is demanded: variables and constraints checked in the SAME pass (realistic bits 1+2
-                        # or idealistic bits 32+64); a root logical constraint is a fixed result variable, so with true values its
+                        # or idealistic bits 32+64; with the all-native delivery bit 8 / 256 covers every constraint bit 2 / 64 covers); a root logical constraint is a fixed result variable, so with true values its
                         # violation surfaces as a variable-bound violation of the realistic pass or as a recomputation mismatch of the
                         # idealistic pass - a mixed mode such as 2+32 sees neither and is judged one-directionally
-                        exact = bits is None or (bits & 3) == 3 or (bits & 96) == 96
+                        exact = bits is None or ((bits & 1) and (bits & 10)) or ((bits & 32) and (bits & 320))   # bits 8 / 256: every delivered constraint is a "final" one here (all-native delivery)
+                        exact = bool(exact)
                         if kind != 'grid' and not vb: continue   # out-of-domain points: only modes checking variables
                         if not exact and not (bounds_ok and cons_ok) and not (ob and objmode == 'off') \
                                 and not (vb and not bounds_ok):
@@ -263,10 +265,10 @@ def work_tol(job):
 
 
 def models(tier):
-    fams = ['linmix', 'canon', 'uenc', 'sharing', 'fracint', 'bounds', 'dvars', 'compl'] if tier == 'quick' else None
+    fams = ['linmix', 'canon', 'uenc', 'sharing', 'fracint', 'bounds', 'dvars', 'compl', 'sos'] if tier == 'quick' else None
     out = []
     for i, (fam, name, m) in enumerate(flatgen.all_models('quick', fams)):
-        if fam in ('alldiffcont', 'sos', 'cones', 'pl', 'unbounded', 'alg3', 'log3', 'affprod'): continue
+        if fam in ('alldiffcont', 'cones', 'pl', 'unbounded', 'alg3', 'log3', 'affprod'): continue
         if fam == 'bounds' and name.startswith('dom5') and 'alldiff' in name: continue   # dom5 makes the third alldiff argument continuous (= alldiffcont)     # alldiff over non-integer expressions is refused by the converter;
         out.append((fam, name, m))                               # SOS/complementarity: auxiliaries not functionally determined
     sh = [(f, n, m) for (f, n, m) in flatgen.all_models('quick', ['shapes'])]
